@@ -396,7 +396,16 @@ fn run_download(obs: &mut Obs, rng: &mut Rng, idx: u64, big: usize) {
                 b
             }
         };
-        asked_chunk = Some(ChunkIdentifier::new(site.clone(), VolumeIndex::new(vol), name, None));
+        // as when the identifier came from a listing made before the object was overwritten: it
+        // carries a time of its own, which must not replace the download's Last-Modified
+        let carried = match rng.below(3) {
+            0 => None,
+            _ => {
+                use chrono::TimeZone;
+                chrono::Utc.timestamp_opt(1_500_000_000 + rng.below(90_000_000) as i64, 0).single()
+            }
+        };
+        asked_chunk = Some(ChunkIdentifier::new(site.clone(), VolumeIndex::new(vol), name, carried));
     }
     if status != 0 {
         data.insert(key.clone(), Stored { bytes: bytes.clone(), last_modified_s: lm, status });
